@@ -60,6 +60,19 @@ pub fn hex(b: &[u8]) -> String {
 pub fn gen_bytes(len: usize, seed: usize) -> Vec<u8> {
     (0..len).map(|i| ((i * 7 + seed + i / 251) % 256) as u8).collect()
 }
+/// bytes no compressor can shrink (xorshift64*), for bodies whose compressed form must be large
+pub fn gen_noise(len: usize, seed: usize) -> Vec<u8> {
+    let mut x: u64 = 0x9E37_79B9_7F4A_7C15 ^ (seed as u64 + 1).wrapping_mul(0xBF58_476D_1CE4_E5B9);
+    let mut v = Vec::with_capacity(len + 8);
+    while v.len() < len {
+        x ^= x >> 12;
+        x ^= x << 25;
+        x ^= x >> 27;
+        v.extend_from_slice(&x.wrapping_mul(0x2545_F491_4F6C_DD1D).to_le_bytes());
+    }
+    v.truncate(len);
+    v
+}
 /// like the Lean driver's `digest`
 pub fn digest(b: &[u8]) -> String {
     if b.len() <= 64 {
